@@ -2,6 +2,7 @@ package lint
 
 import (
 	"fmt"
+	"sort"
 	"strings"
 
 	"golang.org/x/tools/go/ssa"
@@ -91,6 +92,7 @@ func ruleConfGuard() *Rule {
 						}
 					}
 				}
+				_ = owedBy
 				for i, pd := range owedBy {
 					ob := Obligation{Rule: id, Construct: "CONF-INFORCE configuration in force after " + pd.key, Pos: pd.pos}
 					if ends := stillOwed[i]; len(ends) > 0 {
@@ -105,9 +107,159 @@ func ruleConfGuard() *Rule {
 					out = append(out, ob)
 				}
 			}
-			return out
+			out = append(out, confContent(p, id)...)
+			return dedupe(out)
 		},
 	}
+}
+
+// confContent: the configuration appended by AddServer / RemoveServer is the clone of the configuration in force with
+// exactly the requested change, and the append happens on the path that registers the future.
+func confContent(p *Program, id string) []Obligation {
+	var out []Obligation
+	appendConf := p.Func("(*Raft).appendConfiguration")
+	clone := p.Func("(*Configuration).Clone")
+	for _, spec := range []struct {
+		fn      string
+		add     bool
+		members string
+	}{{"(*Raft).AddServer", true, "Members"}, {"(*Raft).RemoveServer", false, "Members"}} {
+		fn := p.Func(spec.fn)
+		if fn == nil {
+			out = append(out, missing(id, spec.fn)...)
+			continue
+		}
+		fr := NewRootFrame(fn)
+		ob := Obligation{Rule: id, Construct: "CONF-CONTENT configuration appended by " + spec.fn, Pos: p.Pos(fn.Pos())}
+		var call *ssa.Call
+		for _, b := range fn.Blocks {
+			for _, in := range b.Instrs {
+				if c, ok := in.(*ssa.Call); ok && c.Common().StaticCallee() == appendConf {
+					call = c
+				}
+			}
+		}
+		if call == nil {
+			ob.Verdict = Violated
+			ob.Detail = spec.fn + " never appends a configuration entry: the change is never replicated or committed although the caller is told it was accepted"
+			out = append(out, ob)
+			continue
+		}
+		ob.Pos = p.InstrPos(call)
+		al := rootAlloc(call.Common().Args[1])
+		if al == nil {
+			ob.Verdict, ob.Detail = Undecided, "the appended configuration is not a local variable"
+			out = append(out, ob)
+			continue
+		}
+		// the local is initialised from r.configuration.Clone()
+		fromClone := false
+		if sv := singleStoreBefore(al, call); sv != nil {
+			if c, ok := sv.(*ssa.Call); ok && c.Common().StaticCallee() == clone && p.Canon(fr, c.Common().Args[0]).S == "r.configuration" {
+				fromClone = true
+			}
+		}
+		// edits of the clone's maps that dominate the append
+		edits := map[string]string{}
+		for _, b := range fn.Blocks {
+			for _, in := range b.Instrs {
+				if !instrDominates(in, call) {
+					continue
+				}
+				switch x := in.(type) {
+				case *ssa.MapUpdate:
+					if m := mapFieldOfLocal(x.Map, al); m != "" {
+						edits["set "+m] = p.Canon(fr, x.Key).S + " := " + p.Canon(fr, x.Value).S
+					}
+				case *ssa.Call:
+					if bi, ok := x.Common().Value.(*ssa.Builtin); ok && bi.Name() == "delete" {
+						if m := mapFieldOfLocal(x.Common().Args[0], al); m != "" {
+							edits["delete "+m] = p.Canon(fr, x.Common().Args[1]).S
+						}
+					}
+				}
+			}
+		}
+		var want map[string]string
+		if spec.add {
+			want = map[string]string{"set Members": "p0 := p1", "set IsVoter": "p0 := p2"}
+		} else {
+			want = map[string]string{"delete Members": "p0", "delete IsVoter": "p0"}
+		}
+		var bad []string
+		if !fromClone {
+			bad = append(bad, "the appended configuration is not a clone of r.configuration")
+		}
+		for k, v := range want {
+			if edits[k] != v {
+				bad = append(bad, fmt.Sprintf("missing or wrong edit %q (found %q, want %q)", k, edits[k], v))
+			}
+		}
+		for k := range edits {
+			if _, ok := want[k]; !ok {
+				bad = append(bad, "unexpected edit "+k+" "+edits[k])
+			}
+		}
+		if len(bad) > 0 {
+			sort.Strings(bad)
+			ob.Verdict = Violated
+			ob.Detail = "the configuration that is appended (and later reported to the caller as committed) does not contain exactly the requested change: " + strings.Join(bad, "; ")
+		} else {
+			ob.Verdict, ob.Detail = Discharged, "clone of r.configuration with exactly the requested change, appended before the future is registered"
+		}
+		out = append(out, ob)
+	}
+	// REMOVED-STEPDOWN: leaving nextConfiguration as Leader although this node is not a member of the next configuration
+	nc := p.Func("(*Raft).nextConfiguration")
+	if nc == nil {
+		return append(out, missing(id, "(*Raft).nextConfiguration")...)
+	}
+	stateAtom := p.StateAtom()
+	sp := NewSpace(stateAtom, BoolAtom("selfInNext", "p0.Members[r.id]#1"))
+	a := NewAnalysis(p, sp)
+	a.Hook = func(a *Analysis, f *Frame, in ssa.Instruction, st State) State {
+		if _, ok := exitPoint(in); ok && f.Parent == nil {
+			a.Observe("REMOVED-STEPDOWN exit of (*Raft).nextConfiguration", f, in, st)
+		}
+		return st
+	}
+	a.Run(nc, nil)
+	L := enumIdx(stateAtom, "Leader")
+	out = append(out, evalObs(a, id, a.SortedObs(), func(_ *Observation, pt int) bool { return !(sp.Val(pt, 0) == L && sp.Val(pt, 1) == 0) }, nil,
+		"a leader that is not a member of the configuration it switches to steps down")...)
+	return out
+}
+
+
+// singleStoreBefore returns the value of the only whole-variable store to al that dominates `before`.
+func singleStoreBefore(al *ssa.Alloc, before ssa.Instruction) ssa.Value {
+	var v ssa.Value
+	n := 0
+	for _, r := range *al.Referrers() {
+		if s, ok := r.(*ssa.Store); ok && s.Addr == al {
+			n++
+			if instrDominates(s, before) {
+				v = s.Val
+			}
+		}
+	}
+	if n == 1 {
+		return v
+	}
+	return nil
+}
+
+// mapFieldOfLocal returns the field name when m is the load of a map field of the local struct al.
+func mapFieldOfLocal(m ssa.Value, al *ssa.Alloc) string {
+	u, ok := m.(*ssa.UnOp)
+	if !ok {
+		return ""
+	}
+	fa, ok := u.X.(*ssa.FieldAddr)
+	if !ok || fa.X != ssa.Value(al) {
+		return ""
+	}
+	return fieldOf(fa.X.Type(), fa.Field).Name()
 }
 
 // ruleConfFollower: C09 CONF-TRUNC, CONF-ADOPT (handler side) and CONF-RESTORE.
